@@ -684,13 +684,15 @@ func (gen *Generator) GenerateCallBySymbol(sym *SexpSymbol, args []Sexp, orig Se
 			return err
 		}
 		// to do a tail call
-		// pop off all the extra scopes
-		// then jump to beginning of function
-		for i := 0; i < gen.scopes; i++ {
+		// pack the variadic tail, pop off all the extra scopes and the
+		// function's own scope, then jump to the beginning of the function:
+		// instruction 0 gives the next iteration a fresh function scope, so
+		// closures made in this iteration keep the bindings they captured.
+		gen.AddInstruction(PrepareCallInstr{sym, len(args)})
+		for i := 0; i < gen.scopes+1; i++ {
 			gen.AddInstruction(RemoveScopeInstr{})
 		}
-		gen.AddInstruction(PrepareCallInstr{sym, len(args)})
-		gen.AddInstruction(GotoInstr{1}) // goto 1 instead of 0 to avoid adding a new scope
+		gen.AddInstruction(GotoInstr{0})
 	} else {
 		gen.AddInstruction(CallExprInstr{callee: sym, args: append([]Sexp(nil), args...)})
 	}
